@@ -133,6 +133,9 @@ def mutants_for(rng, dec, bits):
     return []
 
 
+BOUNDARY_BYTES = [0x00, 0x01, 0x02, 0x7e, 0x7f, 0x80, 0x81, 0xfe, 0xff]
+
+
 def threshold_cases(bits):
     """inputs sitting exactly on each comparison of the decoders (value = threshold, threshold +- 1)"""
     out = []
@@ -165,6 +168,33 @@ def threshold_cases(bits):
             out.append((d, bytes([0xb9, 0, ln]) + p))
             if ln < 56:
                 out.append((d, bytes([0x80 + ln]) + p))
+    # DER: one 0x00 pad before EVERY boundary first byte, at several payload lengths (redundant-sign-byte guard `< 0x80`),
+    # the same first bytes without pad (negative guard `>= 0x80`), and two pads
+    for plen in sorted(set([1, 2, 3, max(n - 1, 1), n, n + 1])):
+        for b0 in BOUNDARY_BYTES:
+            body = bytes([b0]) + b'\x01' * (plen - 1)
+            out.append(('der', b'\x02' + der_len(plen + 1) + b'\x00' + body))
+            out.append(('der', b'\x02' + der_len(plen) + body))
+            out.append(('der', b'\x02' + der_len(plen + 2) + b'\x00\x00' + body))
+            body2 = bytes([b0]) + b'\xff' * (plen - 1)
+            out.append(('der', b'\x02' + der_len(plen + 1) + b'\x00' + body2))
+    # RLP: every boundary first payload byte behind a string header (single-byte rule `< 0x80`, leading-zero rule `== 0`)
+    for plen in sorted(set([1, 2, 3, max(n - 1, 1), n, n + 1])):
+        for b0 in BOUNDARY_BYTES:
+            body = bytes([b0]) + b'\x01' * (plen - 1)
+            for d in RLP_DECS:
+                if plen < 56:
+                    out.append((d, bytes([0x80 + plen]) + body))
+                out.append((d, rlp_str(body)))
+    # fixed-width little-endian: every boundary TOP byte (excess high bits)
+    if n:
+        for b0 in BOUNDARY_BYTES + [(1 << (bits % 8 or 8)) - 1, ((1 << (bits % 8 or 8))) & 0xff]:
+            for d in ('ssz', 'borsh', 'borshr', 'le'):
+                out.append((d, b'\x01' * (n - 1) + bytes([b0])))
+            out.append(('be', bytes([b0]) + b'\x01' * (n - 1)))
+            out.append(('bincode', le(n, 8) + bytes([b0]) + b'\x01' * (n - 1)))
+            out.append(('scale', scale_len(n) + b'\x01' * (n - 1) + bytes([b0])))
+            out.append(('pg_BYTEA', bytes([b0]) + b'\x01' * (n - 1)))
     # DER: length 0x7f/0x80 in short and long form
     for ln in (0x7e, 0x7f, 0x80, 0x81):
         c = b'\x01' * ln
@@ -185,12 +215,26 @@ def gen(rng, tier):
     # every 3-byte string for the header-parsing decoders
     hdr = ['arlp', 'frlp3', 'frlp4', 'rlp', 'rlpbits', 'scale', 'scalec', 'der', 'ssz', 'borsh', 'pg_INT2', 'pg_JSON', 'pg_JSONB',
            'pg_TEXT', 'json', 'str']
-    if not thorough:
-        hdr = ['arlp', 'frlp3', 'frlp4', 'rlp', 'scale', 'scalec', 'der', 'json']
+    full = hdr if thorough else ['arlp', 'scalec', 'der']
+    some = [] if thorough else ['frlp3', 'frlp4', 'rlp', 'scale', 'json']
+    FIRST = [0x00, 0x01, 0x02, 0x22, 0x30, 0x7f, 0x80, 0x81, 0x82, 0x83, 0xb7, 0xb8, 0xb9, 0xbf, 0xc0, 0xc1, 0xf7, 0xf8, 0xfd,
+             0xfe, 0xff, 0x03, 0x07, 0x13]
     for bits in ((12,) if not thorough else (7, 12, 16)):
-        for d in hdr:
+        for d in full:
             for b0 in range(256):
                 heavy.append('exh %d %s %02x 2' % (bits, d, b0))
+        for d in some:
+            for b0 in FIRST:
+                heavy.append('exh %d %s %02x 2' % (bits, d, b0))
+    # DER INTEGERs of 2 and 3 content octets: all of them (sign-byte rules), and 4 content octets behind a 00 pad
+    for bits in ((12, 16) if not thorough else (7, 8, 12, 16, 24, 60)):
+        heavy.append('exh %d der 0201 1' % bits)
+        heavy.append('exh %d der 0202 2' % bits)
+        heavy.append('exh %d der 020300 2' % bits)
+        heavy.append('exh %d der 020301 2' % bits)
+        heavy.append('exh %d der 02030000 1' % bits)
+        heavy.append('exh %d der 0204007f 2' % bits)
+        heavy.append('exh %d der 02040080 2' % bits)
     # postgres headers: BIT length words and NUMERIC headers followed by every 2-byte payload
     for bits in (7, 12, 16, 60):
         for ln in (0, 1, 4, 7, 8, 9, 12, 15, 16, 17, 60, 64, 0xffffffff, 0x80000000):
@@ -199,7 +243,7 @@ def gen(rng, tier):
         for nd, ex in ((0, 0), (1, 0), (1, 1), (1, 2), (1, 0x7fff), (0, 0x7fff), (2, 1), (1, 0x7ffe)):
             heavy.append('exh %d pg_NUMERIC %04x%04x00000000 2' % (bits, nd, ex))
     light = []
-    n = 60000 if not thorough else 3000000
+    n = 40000 if not thorough else 5000000
     while len(light) < n:
         bits = rng.choice(WIDTHS if rng.random() < 0.6 else [7, 12, 60, 63, 65, 100, 250, 440, 448, 535])
         d = rng.choice(decs)
